@@ -68,6 +68,9 @@ def get_hopt_table(lmax, cvect, wvect, rvect, ub, uf):
         for m in range(mmax + 1):
             if (m == 0) and (k == 0):
                 continue
+            if lmax < 1:
+                # A single step: the tables only have the l = 0 border
+                continue
             optp[k][1][m] = uf + 2 * ub + rvect[0]
             opt[k][1][m] = wvect[0] + optp[k][1][m]
     # Fill K = 0
